@@ -428,7 +428,7 @@ def _grows_in_count(e, inside=False):
 def tractable(e):
     txt = csem.render(e, lambda i, s: "L")
     heavy = txt.count("*") + txt.count("/") + txt.count("%")
-    return txt.count("*") <= 1 and txt.count("<<") <= 1 and heavy <= 2 and not _grows_in_count(e)
+    return txt.count("<<") <= 1 and heavy <= 1 and not _grows_in_count(e)
 
 
 def has_defined_point(h, rnd, tries=300):
